@@ -190,6 +190,26 @@ pub fn ver_out(n: u64) -> u64 {
     if n >= u64::MAX - 1_000 { VER_TOP - (u64::MAX - n) } else { n }
 }
 
+/// A TCP port for an in-process server.  Not an OS-assigned one: between the moment such a port is released
+/// and the moment the server binds it, the OS may hand it to a harness process running in parallel (sessions
+/// would then reach the wrong server).  Ports below the ephemeral range, one slot per process and use.
+pub fn private_port() -> u16 {
+    use std::sync::atomic::{AtomicU32, Ordering};
+    static NEXT: AtomicU32 = AtomicU32::new(0);
+    for _ in 0..200 {
+        let n = NEXT.fetch_add(1, Ordering::SeqCst);
+        let port = (21000 + (std::process::id() % 80) * 100 + (n % 100)) as u16;
+        let tag = format!(":{port:04X}");
+        let used = std::fs::read_to_string("/proc/net/tcp")
+            .map(|t| t.lines().skip(1).any(|l| l.split_whitespace().nth(1).map(|a| a.ends_with(&tag)).unwrap_or(false)))
+            .unwrap_or(false);
+        if !used {
+            return port;
+        }
+    }
+    0
+}
+
 pub fn is_client_name(s: &str) -> bool {
     s.len() >= 2 && s.starts_with('c') && s[1..].chars().all(|c| c.is_ascii_digit())
 }
